@@ -17,6 +17,20 @@ def gen_cases(sch, tier, rng):
             if o[0] == "qr" and o[2][23] is not None: o[2][23] = bytes([i + 1]) * rng.choice([3000, 70000])
             if o[0] == "mm" and o[2][6] is not None: o[2][6] = bytes([i + 2]) * rng.choice([2048, 2049, 5000])
         cases.append(p_hist.mk_case(sch, "big%d" % i, h, "multi-window"))
+    # records with exactly ONE member present - one for each of the 39 query/response members and the 7 malformed-message members (a record is
+    # stored iff some enabled member is present: each member alone must be enough) - under all hints and under random masks
+    for rep in range(2 if tier == "quick" else 30):
+        full = (histgen.ALL_QR_BITS, histgen.ALL_SIG_BITS, 3, 3)
+        pre = [1, 0, None, [histgen.gen_bp(sch, rng, masks=full if rep % 2 == 0 else None, tps=1000, maxi=10000)]]
+        ops = []
+        for i in range(39):
+            g = histgen.gen_gqr(rng, 1000, 5, full=True)
+            ops.append(("qr", None, [x if j == i else None for j, x in enumerate(g)]))
+        for i in range(7):
+            g = histgen.gen_gmm(rng, 1000, 5, full=True)
+            ops.append(("mm", None, [x if j == i else None for j, x in enumerate(g)]))
+        ops.append(("wb",))
+        cases.append(p_hist.mk_case(sch, "one%d" % rep, {"pre": pre, "ops": ops}, "single-member"))
     return cases
 def run(ctx):
     sch = schema.load(ctx["mdl"])
@@ -27,7 +41,7 @@ def run(ctx):
     return p_hist.finish(ctx, "C01", cases, diffs,
         "random exporter histories: 1-3 parameter sets with random / default / single-bit-cleared hint masks, tick rates 1..10^9, "
         "max_block_items 0..10000, records with every optional-member subset, boundary integers of each width, byte strings incl. NUL, "
-        "repeated and distinct table values, RR lists, statistics; plus files of several decoder windows with 70000-byte names. Each output is "
+        "repeated and distinct table values, RR lists, statistics; plus files of several decoder windows with 70000-byte names, plus records with exactly one member present (each of the 39 + 7 members alone). Each output is "
         "read by an independent Python RFC 8949/8618 reader and by the library's reader; both must return the submitted records after hint "
         "filtering, in order, AEC totals per key, statistics most recently supplied; and the records the library's reader returns must equal "
         "log_qr / log_mm, the right-hand side of C01_end_to_end evaluated by the extracted model, on every history satisfying the theorem's hypotheses "
